@@ -3,6 +3,7 @@
 From Similar Require Import Model.Base Model.Utils Model.Myers Model.Lcs Model.Hooks Model.Patience Model.Capture
   Spec.Script Spec.SnakeSpec Check.Script Proofs.CheckScript Proofs.MyersSnake Proofs.Lcs Proofs.Main
   Proofs.Unique Proofs.Patience.
+From Similar Require Import Model.TextDiff Proofs.Shift.
 
 (* Myers: for EVERY clock (deadline expiring at any probe or never), on any
    in-bounds ranges, the calls seen by a recording hook are a strong raw walk,
@@ -100,3 +101,42 @@ Example c01_instance :
   | _ => False
   end.
 Proof. vm_compute. split; reflexivity. Qed.
+
+(* ---------------------------------------------------------------------- *)
+(* diffing a sub-range equals diffing the extracted slices shifted by the  *)
+(* range starts (Proofs/Shift.v): all algorithms, every clock, both build *)
+(* modes; equal Ok / Panic / OutOfFuel outcomes and equal counters.        *)
+(* shift_orc looks every index up at +os / +ns; shift_call / shift_op add  *)
+(* os to old indices and ns to new indices.                                *)
+(* ---------------------------------------------------------------------- *)
+Theorem c01_raw_shift :
+  forall (alg : algorithm) (dl : deadline) (dbg : bool) (orc : oracles) (os oe ns ne : nat),
+    os <= oe -> ns <= ne ->
+    raw_trace alg dl dbg orc os oe ns ne =
+    (do '(calls, c) <- raw_trace alg dl dbg (shift_orc orc os ns) 0 (oe - os) 0 (ne - ns);
+     Ok (map (shift_call os ns) calls, c)).
+Proof. exact raw_shift. Qed.
+Print Assumptions c01_raw_shift.
+
+(* on item lists: the oracles of the lists cut at the range starts *)
+Theorem c01_raw_shift_slices :
+  forall (A : Type) (eqb : A -> A -> bool) (old new : list A) (alg : algorithm) (dl : deadline)
+         (dbg : bool) (os oe ns ne : nat),
+    os <= oe -> ns <= ne ->
+    raw_trace alg dl dbg (oracles_of_items eqb (slice_lookup old) (slice_lookup new)) os oe ns ne =
+    (do '(calls, c) <- raw_trace alg dl dbg
+                         (oracles_of_items eqb (slice_lookup (skipn os old)) (slice_lookup (skipn ns new)))
+                         0 (oe - os) 0 (ne - ns);
+     Ok (map (shift_call os ns) calls, c)).
+Proof. exact @raw_shift_slices. Qed.
+Print Assumptions c01_raw_shift_slices.
+
+(* ... and through the capture pipeline (Compact + Replace) *)
+Theorem c01_capture_shift :
+  forall (alg : algorithm) (dl : deadline) (dbg repair : bool) (orc : oracles) (os oe ns ne : nat),
+    os <= oe -> ns <= ne ->
+    capture_diff alg dl dbg repair orc os oe ns ne =
+    (do '(ops, c) <- capture_diff alg dl dbg repair (shift_orc orc os ns) 0 (oe - os) 0 (ne - ns);
+     Ok (map (shift_op os ns) ops, c)).
+Proof. exact capture_shift. Qed.
+Print Assumptions c01_capture_shift.
